@@ -28,6 +28,7 @@ type c19Case struct {
 	Transport string     `json:"transport"` // fconn | fconn-tls | inproc
 	Faults    []c19Fault `json:"faults"`
 	ChanBuf   int        `json:"chanBuf"`
+	Senders   int        `json:"senders,omitempty"` // goroutines sending through the Client around a "during-send" fault (default 1)
 }
 
 type c19Round struct {
@@ -130,6 +131,10 @@ func runC19(c *c19Case) *c19Obs {
 	ccfg.Authenticator = lime.GuestAuthenticator
 	ccfg.NewTransport = func(context.Context) (lime.Transport, error) {
 		if c.Transport == "inproc" {
+			if c.Senders > 1 {
+				// senders queue behind the send mutex, which a bubble does not see as blocked: leave room for all they send
+				return lime.DialInProcess(addr, 64)
+			}
 			return lime.DialInProcess(addr, 4)
 		}
 		t, _, err := fl.DialTransport(cliTCP)
@@ -190,22 +195,27 @@ func runC19(c *c19Case) *c19Obs {
 		var bg sync.WaitGroup
 		switch f.Moment {
 		case "during-send":
-			bg.Add(1)
-			go func() {
-				defer bg.Done()
-				for k := 0; k < 6; k++ {
-					ctx, cancel := context.WithTimeout(context.Background(), 2*time.Second)
-					seq++
-					id := fmt.Sprintf("bg-%d-%d", fi, k)
-					if err := client.SendMessage(ctx, c13Message(id)); err == nil {
-						mu.Lock()
-						okIDs = append(okIDs, id)
-						mu.Unlock()
+			senders := c.Senders
+			if senders < 1 {
+				senders = 1
+			}
+			for g := 0; g < senders; g++ {
+				bg.Add(1)
+				go func() {
+					defer bg.Done()
+					for k := 0; k < 6; k++ {
+						ctx, cancel := context.WithTimeout(context.Background(), 2*time.Second)
+						id := fmt.Sprintf("bg-%d-%d-%d", fi, g, k)
+						if err := client.SendMessage(ctx, c13Message(id)); err == nil {
+							mu.Lock()
+							okIDs = append(okIDs, id)
+							mu.Unlock()
+						}
+						cancel()
+						runtime.Gosched()
 					}
-					cancel()
-					runtime.Gosched()
-				}
-			}()
+				}()
+			}
 		case "during-inbound":
 			bg.Add(1)
 			cur := sc
@@ -421,7 +431,15 @@ func c19Watchdog(rec *Recorder, stop chan struct{}) {
 			}
 			WriteFuzzViolation("C19", Verdict{Sig: sig, Detail: "after the fault the client's listener busy-loops (the fake clock of the bubble cannot advance; two dumps one second apart show):\n" + s2}, rawJSON(cs))
 		} else {
-			WriteFuzzViolation("C19", Verdict{Sig: "C19/harness/stalled", Detail: "no progress for 8 s without a running library goroutine"}, rawJSON(cs))
+			buf := make([]byte, 4<<20)
+			n := runtime.Stack(buf, true)
+			var libs []string
+			for _, g := range strings.Split(string(buf[:n]), "\n\n") {
+				if strings.Contains(g, "github.com/takenet/lime-go") || strings.Contains(g, "verif/harness") {
+					libs = append(libs, truncate(g, 900))
+				}
+			}
+			WriteFuzzViolation("C19", Verdict{Sig: "C19/harness/stalled", Detail: "no progress for 8 s without a running library goroutine:\n" + truncate(strings.Join(libs, "\n\n"), 30000)}, rawJSON(cs))
 		}
 		FlushAll()
 		os.Exit(7)
@@ -473,13 +491,54 @@ func TestC19Enum(t *testing.T) {
 	rec.Note("exhaustive", "true")
 }
 
+// TestC19Flap: many goroutines send through one Client while its session is taken away again and again (the callers, the
+// Client's listener and the rebuild all meet in getOrBuildChannel).
+func TestC19Flap(t *testing.T) {
+	rec := NewRecorder("C19", "TestC19Flap")
+	defer rec.Finish(t)
+	stop := make(chan struct{})
+	go c19Watchdog(rec, stop)
+	defer close(stop)
+	sh, nsh := Shard()
+	idx := 0
+	for rep := 0; rep < Scale(2, 40); rep++ {
+		for _, tr := range []string{"inproc", "fconn", "fconn-tls"} {
+			for _, kind := range []string{"eof", "server-fail", "server-finish", "cut"} {
+				if tr == "inproc" && kind == "cut" {
+					continue
+				}
+				for _, buf := range []int{0, 1, 8} {
+					idx++
+					if idx%nsh != sh {
+						continue
+					}
+					c := &c19Case{Transport: tr, ChanBuf: buf, Senders: 8}
+					for k := 0; k < 10; k++ {
+						c.Faults = append(c.Faults, c19Fault{Kind: kind, Moment: "during-send"})
+					}
+					o := &Outcome{}
+					var obs *c19Obs
+					rec.Journal(c)
+					c19Current.Store(string(toRaw(c)))
+					synctest.Test(t, func(t *testing.T) { obs = runC19(c) })
+					atomic.AddInt64(&c19Beat, 1)
+					judgeC19(c, obs, o)
+					o.Class("senders=8")
+					rec.Eval(c, o)
+				}
+			}
+		}
+	}
+}
+
 func TestC19(t *testing.T) {
 	rec := NewRecorder("C19", "TestC19")
 	stop := make(chan struct{})
 	go c19Watchdog(rec, stop)
 	defer close(stop)
 	rapid.Check(t, func(rt *rapid.T) {
-		c := &c19Case{Transport: rapid.SampledFrom([]string{"fconn", "fconn", "fconn-tls", "inproc"}).Draw(rt, "transport"), ChanBuf: rapid.SampledFrom([]int{0, 1, 8}).Draw(rt, "chanBuf")}
+		c := &c19Case{Transport: rapid.SampledFrom([]string{"fconn", "fconn", "fconn-tls", "inproc"}).Draw(rt, "transport"), ChanBuf: rapid.SampledFrom([]int{0, 1, 8}).Draw(rt, "chanBuf"),
+			Senders: rapid.SampledFrom([]int{1, 1, 2, 8}).Draw(rt, "senders")}
 		n := rapid.IntRange(1, 4).Draw(rt, "reps")
 		for i := 0; i < n; i++ {
 			kinds := c19Faults
